@@ -14,3 +14,9 @@ func debugObl(o *Obligation) {
 		fmt.Println("   A:", truncate(a.E, 200))
 	}
 }
+
+func dbgf(format string, a ...interface{}) {
+	if os.Getenv("VCGO_TRACE") != "" {
+		fmt.Printf("TRACE "+format+"\n", a...)
+	}
+}
